@@ -15,6 +15,8 @@ structure Sess where
   iter  : Option TreeIter := none
   cursor : Option Cursor := none
   mem   : Mem := {}
+  /-- `obs=sparse`: the content is printed by `observe` only -/
+  sparse : Bool := false
 
 def obsM (t : Option TreeSet) : String :=
   match t with
@@ -26,9 +28,11 @@ def phys (s : Sess) (cmps : Nat) : String :=
   | none => "-"
   | some t => s!"size={t.t.size} cmps={cmps} it={fmtIter s.iter} tree={fmtTree t.t.root}"
 def inv (s : Sess) : Bool := match s.model with | none => true | some t => decide (t.Inv (cmpOf s.which))
-def lineS (hd : String) (s : Sess) : String := s!"S {hd} {obsS s.spec}"
-def lineM (hd : String) (s : Sess) (cmps : Nat) : String :=
-  s!"M {hd} {obsM s.model} | {phys s cmps} | {fmtMem s.mem} | {fmtFlags (inv s) s.mem}"
+def lineS (hd : String) (s : Sess) (full : Bool := false) : String :=
+  if s.sparse && !full then s!"S {hd} " else s!"S {hd} {obsS s.spec}"
+def lineM (hd : String) (s : Sess) (cmps : Nat) (full : Bool := false) : String :=
+  let obs := if s.sparse && !full then "" else obsM s.model
+  s!"M {hd} {obs} | {phys s cmps} | {fmtMem s.mem} | {fmtFlags (inv s) s.mem}"
 
 def parseOp (c : Cmd) : Option Spec.OrdSet.Op :=
   match c.op with
@@ -52,7 +56,7 @@ def step (s : Sess) (c : Cmd) : Sess × String × String :=
     -- `new_default`: the library's default constructor, i.e. the C library's allocator triple
     let (st, t, m) := TreeSet.newT (if c.op == "new_default" then .libc else .conf) m
     let (sst, sp) : Stat × Option OrdMap := if c.fired > 0 then (.errAlloc, none) else (.ok, some [])
-    let s' : Sess := { which := c.nat "cmp" 0, model := t, spec := sp, mem := m }
+    let s' : Sess := { which := c.nat "cmp" 0, model := t, spec := sp, mem := m, sparse := c.str "obs" == some "sparse" }
     (s', lineS (fmtStat sst) s', lineM (fmtStat st) s' 0)
   | _ =>
   match s.model, s.spec with
@@ -94,9 +98,12 @@ def step (s : Sess) (c : Cmd) : Sess × String × String :=
         let s' : Sess := { s with model := some t', spec := some f', iter := some it', cursor := some cu', mem := m }
         (s', lineS (hdr (some sst) sv none noout) s', lineM (hdr (some st) v none noout) s' 0)
       | _, _ => let s' := { s with mem := m }; (s', lineS "st=- noiter" s', lineM "st=- noiter" s' 0)
+    | "observe" =>
+      let s' : Sess := { s with mem := m }
+      (s', lineS "st=-" s' true, lineM "st=-" s' 0 true)
     | "destroy" =>
       let m := t.destroy m
-      let s' : Sess := { which := s.which, mem := m }
+      let s' : Sess := { which := s.which, mem := m, sparse := s.sparse }
       (s', lineS "st=-" s', lineM "st=-" s' 0)
     | _ => (s, "S st=- badop", "M st=- badop")
   | _, _ =>
